@@ -3,6 +3,7 @@
 import PasskeyVerif.Driver.Hid
 import PasskeyVerif.Driver.Psl
 import PasskeyVerif.Driver.RpId
+import PasskeyVerif.Driver.AuthData
 open PasskeyVerif
 
 structure DriverState where
@@ -21,6 +22,7 @@ def stepLine (st : DriverState) (line : String) : DriverState × String :=
       ({ st with hid := h }, out)
     else if tok.startsWith "psl." then (st, Driver.Psl.step op impl)
     else if tok.startsWith "rp." then (st, Driver.RpId.step op impl)
+    else if tok.startsWith "ad." then (st, Driver.AuthData.step op impl)
     else (st, "bad-op\tna")
   | [] => (st, "bad-op\tna")
 
